@@ -16,7 +16,7 @@ THOROUGH_DEPTH = 20      # thorough tier = this many times the base thorough bud
 ROUTES = ["Quaternion.normalize", "Quaternion.product", "Quaternion.__mul__", "Quaternion.__matmul__", "Quaternion.__mul__(Quaternion)",
           "orientation.q_prod", "Quaternion.conjugate", "Quaternion.inverse", "Quaternion.inv", "Quaternion.mult_L",
           "Quaternion.mult_R", "orientation.q_mult_L", "orientation.q_mult_R", "orientation.q_conj",
-          "Quaternion(order=S)", "QuaternionArray(order=S)", "associativity", "norm-multiplicative"]
+          "Quaternion(order=S)", "QuaternionArray(order=S)", "associativity", "norm-multiplicative", "derived object"]
 REGIONS = {"versor": 100, "nonversor": 100, "near_unit": 60, "special": 60, "whole": 60}
 PROBES = [("ahrs.common.quaternion", "Quaternion.product"), ("ahrs.common.orientation", "q_prod"),
           ("ahrs.common.quaternion", "Quaternion.mult_L"), ("ahrs.common.quaternion", "Quaternion.mult_R"),
@@ -104,6 +104,35 @@ def check(case, ctx):
                       ("Quaternion.__matmul__", lambda x, y: np.asarray(Q(x, versor=versor) @ y)), ("orientation.q_prod", lambda x, y: o.q_prod(x, y)),
                       ("Quaternion.__mul__(Quaternion)", lambda x, y: np.asarray(Q(x, versor=versor) * Q(y, versor=versor)))):
             forms.invariant(ctx, r, fn, [a, b])
+    # ---- objects obtained from a Quaternion by NumPy arithmetic or by modifying a copy (-q, q/2, np.negative(q), c = q.copy(); c[k] = ...): they are
+    # Quaternion objects with values of their own, and the algebra must be that of those values
+    kk = int(abs(float(aa[1])) * 1e6) % 4
+    mod = aa.copy()
+    mod[kk] = mod[kk] + 0.75
+
+    def modified_copy():
+        Cp = Q(aa.copy(), versor=False).copy()
+        Cp[kk] = Cp[kk] + 0.75
+        return Cp
+    for lab, mk, want in (("-q", lambda: -Q(aa.copy(), versor=False), -aa), ("q/2", lambda: Q(aa.copy(), versor=False) / 2.0, aa / 2.0),
+                          ("np.negative(q)", lambda: np.negative(Q(aa.copy(), versor=False)), -aa), ("a modified copy", modified_copy, mod)):
+        r = "derived object"
+        outd = call(lambda: (lambda D: (np.array([D.w, D.x, D.y, D.z], float), np.asarray(D.conjugate, float), np.asarray(D.product(bb.copy()), float),
+                                        np.asarray(Q(bb.copy(), versor=False).product(D), float), np.asarray(Q(bb.copy(), versor=False) * D, float),
+                                        np.asarray(D * bb.copy(), float), np.asarray(D.to_array(), float), isinstance(D, Q)))(mk()))
+        if not ctx.returned(outd, route=r):
+            continue
+        wxyz, cj, dprod, pd, pmul, dmul, arr, isq = outd.value
+        if not isq:
+            ctx.note("%s is not a Quaternion object (plain array): nothing to check" % lab)
+            continue
+        nw = np.linalg.norm(want)
+        det = {"derived_as": lab, "values": want}
+        ctx.le("a derived Quaternion exposes its own w, x, y, z and to_array()", max(rel(wxyz, want, nw), rel(arr, want, nw)), REL, dict(det, wxyz=wxyz, to_array=arr), route=r)
+        ctx.le("a derived Quaternion's conjugate is that of its own values", rel(cj, rq.qconj(want), nw), REL, dict(det, got=cj), route=r)
+        ctx.le("a derived Quaternion multiplies as its own values (left and right operand, method and operator)",
+               max(rel(dprod, rq.qmul(want, bb), nw * nb), rel(dmul, rq.qmul(want, bb), nw * nb), rel(pd, rq.qmul(bb, want), nw * nb), rel(pmul, rq.qmul(bb, want), nw * nb)), REL,
+               dict(det, left=dprod, right=pd), route=r)
     # associativity and norm through the library's own product
     out = call(lambda: (Q(np.asarray(A.product(bb.copy())), versor=False).product(cc.copy()),
                         A.product(np.asarray(Q(bb.copy(), versor=False).product(cc.copy())))))
